@@ -227,6 +227,13 @@ static bool mode_pton_grammar() {
         uint16_t net[8] = {0, 0, 0, 0, 0, 0xffff, (uint16_t)((oct[a] << 8) | oct[c]), (uint16_t)((oct[c] << 8) | oct[a])};
         snprintf(b, sizeof b, "%d.%d.%d.%d/%d", oct[a], oct[c], oct[c], oct[a], n);
         if (!expect_mask(b, net, 96 + n, n <= 32)) return false;
+        // the prefix length is a decimal number: leading zeros do not change it
+        if (n <= 32) {
+            snprintf(b, sizeof b, "%d.%d.%d.%d/%02d", oct[a], oct[c], oct[c], oct[a], n);
+            if (!expect_mask(b, net, 96 + n, true)) return false;
+            snprintf(b, sizeof b, "%d.%d.%d.%d/%03d", oct[a], oct[c], oct[c], oct[a], n);
+            if (!expect_mask(b, net, 96 + n, true)) return false;
+        }
         // short form a.b/n
         uint16_t net2[8] = {0, 0, 0, 0, 0, 0xffff, (uint16_t)((oct[a] << 8) | oct[c]), 0};
         snprintf(b, sizeof b, "%d.%d/%d", oct[a], oct[c], n);
@@ -255,6 +262,12 @@ static bool mode_pton_grammar() {
             uint16_t net2[8] = {gv[i], gv[j], 0, 0, 0, 0, 0, 0};
             snprintf(b, sizeof b, "%x:%x::/%d", gv[i], gv[j], n);
             if (!expect_mask(b, net2, n, n <= 128)) return false;
+            if (n <= 128) {
+                snprintf(b, sizeof b, "%x:%x::/%03d", gv[i], gv[j], n);
+                if (!expect_mask(b, net2, n, true)) return false;
+                snprintf(b, sizeof b, "%x:%x::/0%d", gv[i], gv[j], n);
+                if (!expect_mask(b, net2, n, true)) return false;
+            }
         }
         for (int k = 1; k <= 7; k++) {
             uint16_t net[8] = {0, 0, 0, 0, 0, 0, 0, 0};
